@@ -88,7 +88,7 @@ class Fn:
             return {s['s']: x}
         if name == 'raiseIfMod':
             if _is_int(x) and s['m'] != 0 and x % s['m'] == s['r']:
-                raise exc_class(s['cls'])(x)
+                raise (exc_class(s['cls'])() if s.get('noargs') else exc_class(s['cls'])(x))
             return x
         if name == 'fragment':
             if not _is_int(x):
@@ -139,6 +139,6 @@ class Pred:
             return True
         if name == 'raiseIfMod':
             if _is_int(x) and s['m'] != 0 and x % s['m'] == s['r']:
-                raise exc_class(s['cls'])(x)
+                raise (exc_class(s['cls'])() if s.get('noargs') else exc_class(s['cls'])(x))
             return True
         raise AssertionError(s)
